@@ -13,8 +13,8 @@ def run(tier):
                             "metadata values (unbounded ints, so equal/different repeats are both covered). After every step the new stream, "
                             "after the last step every live stream, is looked up for all 3 keys against a reference map; all streams are executed "
                             "and the received AST / ast.dump / calc_ast_hash compared with the twin history without the QMetaData steps")]
-    jobs.append(chrun.SJob("vlib.sh.c16", "c16w", base.parts(27), 300 if tier == "quick" else 900,
-                           what="linear histories of 5 steps: three QMetaData calls (each of the 3 kinds) separated by a Select or a MetaData, so that every call annotates "
+    jobs.append(chrun.SJob("vlib.sh.c16", "c16w", base.parts(64), 300 if tier == "quick" else 900,
+                           what="linear histories of 5 steps: three QMetaData calls (each of 4 kinds: key a, key b, keys {a,c}, key a set to None) separated by a Select or a MetaData, so that every call annotates "
                                 "another node; 3 unbounded int values (equal / different in every pattern, e.g. a key that goes back to an earlier value); same oracles"))
     if tier == "thorough":
         jobs.append(chrun.SJob("vlib.sh.c16", "c16k4", base.parts(125), 1200,
